@@ -130,6 +130,25 @@ TJ = "old(LinkText(S[j]))"
 EJ = f"({TJ} if {TJ} in explicit else FullyNormalizeName({TJ}))"
 
 
+def _post_all(S, hi):
+    """The resolution rule for every reference S[0:hi] (quantified over j)."""
+    tj = TJ.replace("S[j]", f"{S}[j]")
+    ej = EJ.replace("S[j]", f"{S}[j]")
+    link = f"old({S}[j].id_link)"
+    return [
+        f"forall(0, {hi}, lambda j: implies(not {link}, {S}[j].refid == old({S}[j].refid) and {S}[j].refuri == old({S}[j].refuri)))",
+        f"forall(0, {hi}, lambda j: implies({link} and {ej} in explicit, {S}[j].refid == explicit[{ej}][0]))",
+        f"forall(0, {hi}, lambda j: implies({link} and {ej} not in explicit and {tj} in slugs, {S}[j].refid == slugs[{tj}][1]))",
+        f"forall(0, {hi}, lambda j: implies({link} and {ej} not in explicit and {tj} not in slugs, {S}[j].refid == NormalizeLink({tj})"
+        f" and {S}[j].g_nwarn == old({S}[j].g_nwarn) + 1 and {S}[j].g_wline == {S}[j].line))",
+        f"forall(0, {hi}, lambda j: implies({link} and ({ej} in explicit or {tj} in slugs), {S}[j].g_nwarn == old({S}[j].g_nwarn)))",
+        f"forall(0, {hi}, lambda j: implies({link}, {S}[j].refuri is None))",
+        # link text that was given is kept in front; a reference that is not a '#'-link keeps exactly its children
+        f"forall(0, {hi}, lambda j: {S}[j].children[: len(old({S}[j].children))] == old({S}[j].children))",
+        f"forall(0, {hi}, lambda j: implies(not {link}, {S}[j].children == old({S}[j].children) and {S}[j].g_nwarn == old({S}[j].g_nwarn)))",
+    ]
+
+
 def _post_last(S, k):
     """The resolution rule for the reference S[k] (the one the iteration that just ended has processed)."""
     tj = TJ.replace("S[j]", f"{S}[{k}]")
@@ -161,10 +180,9 @@ contract(
               "forall_obj('Element', lambda e: implies(e.id_link, e.refuri is not None))"],
     ensures=[],
     loops={"for refnode in findall(": dict(
-        # (what is proved: every iteration establishes the rule for the reference it processes - whose state is still the one at
-        #  entry, by the second clause - and leaves the references not reached yet alone; that later iterations do not disturb
-        #  earlier ones - they write only to their own reference and to new nodes - is not part of this invariant)
-        invariant=_post_last("_seq_refnode", "(_i_refnode - 1)") + [
+        # (the rule for the reference the iteration just processed - cheap, proved first - and then the same rule for EVERY reference
+        #  processed so far: later iterations write only to their own reference and to new nodes)
+        invariant=_post_last("_seq_refnode", "(_i_refnode - 1)") + _post_all("_seq_refnode", "_i_refnode") + [
             # the references not reached yet are as they were
             "forall(_i_refnode, len(_seq_refnode), lambda j: _seq_refnode[j].refid == old(_seq_refnode[j].refid))",
             "forall(_i_refnode, len(_seq_refnode), lambda j: _seq_refnode[j].refuri == old(_seq_refnode[j].refuri))",
